@@ -1,7 +1,7 @@
 """C16 - masked iteration steps with a false mask are inert.
 
 Decided: both combinators are `step.mask()` under dimap(pre=(state, flag) -> (flag, state)) so the flag reaches MaskCombinator's
-first argument (C14 then gates the score); for masked_iterate_final the carried value returned by `post` is a flag-selection between the
+first argument (C14 then gates the score); for both combinators the carried value returned by `post` is a flag-selection between the
 step's value and the *previous* state (must depend on the mask flag AND on the state argument); the scan result is post-processed as
 documented (final carry / prepend_initial_acc).  Not decided: the kernels' own behaviour.
 """
@@ -110,9 +110,12 @@ def run(chk, prog):
             rr = ev.apply(f, [P("$ret")], module=m) if f is not None else None
             chk.require(rr == mk_proj(P("$ret"), 0), "COMPOSE", inst + "/final", "result is the final carry", derived=show(rr), expected="ret[0]", where=where)
         else:
-            v = ("attr", MR, "value")
-            chk.require(carry == out and (carry == v or flag_selects(ev, carry, MR, state_terms)), "COMPOSE", inst + "/post", "carry and stacked output are the step value",
-                        derived=f"({show(carry)[:120]}, {show(out)[:120]})", expected="(v, v) with v the step's value", where=where)
+            # "a step whose mask entry is False contributes nothing to the score": the value chosen at a masked-off step must not become the input of the next
+            # (unmasked) step - its density there depends on it.  The carried value is a flag selection between the step's value and the previous state.
+            chk.require(flag_selects(ev, carry, MR, state_terms), "MASK-INERT", inst + "/post", "carried value keeps the previous state when the flag is false",
+                        derived=f"carry = {show(carry)[:200]}", expected="masked_retval.unmask(default=<previous state>) / where(flag, value, <previous state>)", where=where)
+            chk.require(carry == out, "COMPOSE", inst + "/post-out", "carry and stacked output are the same value",
+                        derived=f"({show(carry)[:120]}, {show(out)[:120]})", expected="(v, v)", where=where)
             d2 = ch[3][1]
             p2, q2 = kwarg(d2, "pre"), kwarg(d2, "post")
             rp2 = ev.apply(p2, [("star", P("$a"))], module=m) if p2 is not None else None
